@@ -1,6 +1,6 @@
 (* BulkCheck.v — executable comparison of the HandleBulkBody model with observations
    of the real function (used by the generated case files of C15). *)
-From SigM Require Import Base Bulk BulkPool BulkAlias.
+From SigM Require Import Base Bulk BulkPool BulkAlias BulkConc.
 Open Scope N_scope.
 
 Definition L := mkLine.
@@ -104,4 +104,76 @@ Fixpoint check_alias (steps : list astep) (s : astate) (i : nat) : list nat :=
         tables_ok (snd s) ss' tables &&
         filed_ok ss' && self_check bad b
      then [] else [i]) ++ check_alias r (fst s, ss') (S i)
+  end.
+
+(* ---- stream "concurrent": rounds of bulk requests served at the same time (SigM.BulkConc).  A round
+   starts from a process without the round's indexes; [CWave reqs] = the requests released together
+   (unstorable indexes, body, observation: the response as the request got it, [o_found] = the
+   (index, document) hits of THAT request's documents after the one flush that follows the wave);
+   [CDrop idxs] = the idle stores of these indexes were taken out of the store table between two
+   waves.  Every wave is replayed under the round-robin interleaving (all requests look the stream
+   up before any of them creates the store: what the harness's starting gate provokes) and under the
+   sequential one; both must explain the observation, and the response must be the one the body gets
+   on its own.  Document identities are unique over the round (request number * 1000 + line). ---- *)
+Inductive cstep :=
+| CWave (reqs : list (list N * list line * obs))
+| CDrop (idxs : list N).
+
+Definition resp_agrees (bad : list N) (b : list line) (o : obs) : bool :=
+  let r := handle (store_of bad) b in
+  list_eqb N.eqb (r_items r) (o_items o) &&
+  Bool.eqb (r_errors r) (o_errors o) &&
+  (r_processed r =? o_processed o) &&
+  Bool.eqb (r_allfailed r) (o_allfailed o).
+
+Definition conc_streams (st : cstate) : list N := nodup N.eq_dec (map fst (c_tbl st)).
+
+(* the hits of the documents of body [b] after the flush: per stream, what the table's store holds *)
+Definition conc_found (st : cstate) (b : list line) : list (N * N) :=
+  flat_map (fun s => map (pair s) (filter (in_body b) (visible st s))) (conc_streams st).
+
+Definition one_store_per_stream (st : cstate) : bool :=
+  Nat.eqb (length (conc_streams st)) (length (c_tbl st)).
+
+(* the response of every request is the one its body gets on its own (the response owns its items:
+   what other requests of the same moment do cannot show in it) *)
+Fixpoint wave_reqs_ok (f1 f2 : cstate) (reqs : list (list N * list line * obs)) : bool :=
+  match reqs with
+  | [] => true
+  | (bad, b, o) :: r =>
+    resp_agrees bad b o && self_check bad b &&
+    same_multiset (conc_found f1 b) (o_found o) &&
+    same_multiset (conc_found f2 b) (o_found o) &&
+    wave_reqs_ok f1 f2 r
+  end.
+
+Definition wave_ok (st : cstate) (reqs : list (list N * list line * obs)) : bool * cstate :=
+  let creqs := map (fun q => bulk_creq (store_of (fst (fst q))) (snd (fst q))) reqs in
+  let f1 := crun true (c_arrive st creqs) (sched_round_robin creqs) in
+  let f2 := crun true (c_arrive st creqs) (sched_sequential creqs) in
+  (all_done f1 && all_done f2 && one_store_per_stream f1 && wave_reqs_ok f1 f2 reqs,
+   mkC (c_tbl f1) (c_next f1) (c_ents f1) []).
+
+Fixpoint round_ok (steps : list cstep) (st : cstate) : bool :=
+  match steps with
+  | [] => true
+  | CWave reqs :: r => let w := wave_ok st reqs in fst w && round_ok r (snd w)
+  | CDrop idxs :: r => round_ok r (fold_left c_drop (map stream_id idxs) st)
+  end.
+
+Fixpoint check_conc (rounds : list (list cstep)) (i : nat) : list nat :=
+  match rounds with
+  | [] => []
+  | steps :: r => (if round_ok steps c_empty then [] else [i]) ++ check_conc r (S i)
+  end.
+
+(* stream "concurrent/response_slice": responses of requests that were served while the same few bodies
+   were sent over and over by other goroutines: (own items of the body, the items of the other bodies,
+   the items the response carried).  The model serves the request, then every other body into the
+   same pool before anybody serialises (SigM.BulkConc.slice_response, with the copy the code makes) *)
+Fixpoint check_slice (cases : list (list N * list (list N) * list N)) (i : nat) : list nat :=
+  match cases with
+  | [] => []
+  | (own, peers, got) :: r =>
+    (if list_eqb N.eqb (slice_response true own peers) got then [] else [i]) ++ check_slice r (S i)
   end.
